@@ -27,7 +27,8 @@ def K : PCtx :=
     sp := 100,
     loc := fun n => if n = "g" then some 2 else none,
     consts := [],
-    nlocals := 0 }
+    nlocals := 0,
+    link := 0 }
 
 theorem lookup_g (n : String) (s : Symbol) (h : tbl.lookup "main" n = .ok s) : n = "g" ∧ s = sym := by
   unfold SymTab.lookup tbl at h
@@ -53,12 +54,14 @@ theorem S_zero : K.S = 0 := rfl
 theorem wf : K.WFS 4 where
   nodup := by decide
   var_global := by
-    intro n s h _
+    intro n s a h _ hloc
     obtain ⟨hn, hs⟩ := lookup_g n s h
     subst hn; subst hs
+    simp only [K, if_true, Option.some.injEq] at hloc
+    subst hloc
     exact ⟨5, .plain, rfl, rfl, rfl⟩
   var_local := by
-    intro n s h hsc
+    intro n s a h hsc _
     obtain ⟨_, hs⟩ := lookup_g n s h
     subst hs
     exact absurd rfl hsc
@@ -87,6 +90,12 @@ theorem wf : K.WFS 4 where
       · simp at h2
     · simp at h1
   const_sep := by intro v l j k n a h; simp [K] at h
+  loc_ne_link := by
+    intro n a h
+    simp only [K] at h
+    split at h
+    · simp only [Option.some.injEq] at h; subst h; rw [S_zero]; decide
+    · simp at h
   exit_lbl := ⟨.plain, rfl⟩
   stop_ok := ⟨by decide, rfl⟩
 
@@ -124,6 +133,23 @@ theorem rep : Rep K σ mem where
       rw [h2] at h
       simp at h
   consts := by intro v l j k h; simp [K] at h
+  locs := by
+    intro n hv
+    unfold IsVar at hv
+    rcases hv with ⟨o, h⟩ | ⟨_, h⟩
+    · simp [σ] at h
+    · by_cases hn : n = "g"
+      · subst hn; exact ⟨2, by simp [K]⟩
+      · exfalso
+        simp only [K, List.lookup] at h
+        have : (n == "g") = false := by simpa using hn
+        rw [this] at h
+        simp at h
+  link := by
+    unfold mem
+    rw [S_zero]
+    rw [Mem.read_write_other _ _ _ _ (by decide), Mem.read_write_other _ _ _ _ (by decide)]
+    exact Mem.read_zero _
 
 /-- `g := g + 1`. -/
 def stmt : X.Stmt := .assign "g" (.bin .plus (.name "g") (.num 1))
